@@ -37,6 +37,9 @@ def check_C01(tier, seed):
     out = Outcome("C01", tier, seed)
     pats = ["P222", "P231"] if tier == "quick" else ["P222", "P231", "P122", "P322", "P2222", "P2132"]
     md = {p: (3 if len(p) <= 4 else 4) for p in pats}
+    # a 7-item dimension, and 6-dimensional operands in a few storage orders ("big" mode, MaxDims = 0)
+    pats += ["P72", "P272", "P222222"]
+    md.update({"P72": 2, "P272": 0, "P222222": 0})
     _run_family(out, "arith", pats, "Prop_C01", {0, 1} if tier == "quick" else {0, 1, 2}, md)
     from .checks_traces import run_traces
     run_traces(out, "C01", tier)
@@ -48,7 +51,9 @@ def check_C01(tier, seed):
         "each vector is additionally run on float64 arrays (C and Fortran memory layout)",
         "minimum/maximum/abs/sign are decided concolically (entry-wise, both orders per entry via several valuations); "
         "** is decided on small integers (base 1..3, exponent 0..2)",
-        "bounded universe: <= 4 dimensions of length <= 3; every ordered subset pair enumerated",
+        "bounded universe: every ordered subset pair of <= 4 dimensions of length <= 3; plus a 7-item dimension and 6-dimensional operands "
+        "in a few storage orders; float32, integer-typed, 2^40-scaled and NaN-carrying operands (NaN must appear exactly at the entries that "
+        "depend on it)",
     ]
     return out.finish(rule="one vector per (operator, ordered dims of x, ordered dims of y, valuation seed); "
                            "TLC computes the label-keyed result polynomial, flodym is run symbolically and numerically; "
@@ -59,6 +64,8 @@ def check_C07(tier, seed):
     out = Outcome("C07", tier, seed)
     pats = ["P222", "P231"] if tier == "quick" else ["P222", "P231", "P122", "P322", "P2222", "P2132"]
     md = {p: (3 if len(p) <= 4 else 4) for p in pats}
+    pats += ["P72", "P272", "P222222"]
+    md.update({"P72": 2, "P272": 0, "P222222": 0})
     _run_family(out, "reduce", pats, "Prop_C07", {0, 1} if tier == "quick" else {0, 1, 2, 3}, md)
     from .checks_traces import run_traces
     run_traces(out, "C07", tier)
